@@ -720,7 +720,8 @@ Definition parse_main : M (rr query) :=
   dom remaining <- there_are_remaining_lexems ;;
   if remaining then err "Could not parse tokens at the end of the query"
   else
-    let limit := if (limit =? 0) && forallb (fun e => is_empty (get_required_fields e)) fields then 1 else limit in
+    (* the one-row rule of a column-less select list; not for grouped queries (fix in /repo after f7559e3) *)
+    let limit := if (limit =? 0) && is_empty grouping_fields && forallb (fun e => is_empty (get_required_fields e)) fields then 1 else limit in
     ret (ROk (mkQuery fields roots expr grouping_fields ordering_fields ordering_asc limit output_format)).
 
 End WithTokens.
